@@ -41,6 +41,7 @@ import Midgard.Proofs.WriterFilesCrd
 import Midgard.Proofs.WriterFilesClu
 import Midgard.Proofs.WriterFilesCrdRange
 import Midgard.Generated.WriterEffects
+import Midgard.Proofs.WriterSta
 
 namespace Midgard.Props.C17
 open Midgard.Text Midgard.FixedCol Midgard.WriterCells Midgard.Writers Midgard.Generated.WriterLayouts
@@ -289,6 +290,55 @@ theorem readback_is_rounding (p : Nat) (q : Rat) :
       ∀ z : Int, q * Decimal.pow10 p = (z : Rat) → v = q :=
   ⟨_, rfl, Decimal.fixedValue_close q p, fun z hz => Decimal.fixedValue_exact q p z hz⟩
 
+/-! ### Bernese STA: which TYPE 002 records are written (`Model/WriterSta.lean`) -/
+
+/-- **`_get_object_for_date` returns an entry of the history whose period contains the date** (and `none` exactly in an
+interruption of the history: `sta_lookup_complete`) -/
+theorem sta_lookup_sound (d : Int) (h : WriterSta.Hist) (e : WriterSta.Entry) (he : WriterSta.objectForDate d h = some e) :
+    e ∈ h ∧ e.from_ ≤ d ∧ d < e.to_ :=
+  WriterSta.objectForDate_sound d h e he
+
+theorem sta_lookup_complete (d : Int) (h : WriterSta.Hist) :
+    (WriterSta.objectForDate d h).isSome = true ↔ ∃ e ∈ h, e.from_ ≤ d ∧ d < e.to_ := by
+  constructor
+  · intro hs
+    obtain ⟨e, he⟩ := Option.isSome_iff_exists.mp hs
+    exact ⟨e, WriterSta.objectForDate_sound d h e he⟩
+  · rintro ⟨e, hm, h1, h2⟩
+    exact WriterSta.objectForDate_complete d h e hm h1 h2
+
+/-- **Every TYPE 002 record names equipment that is installed at its start**, for all receiver / antenna / eccentricity
+histories (in any order, with interruptions, overlaps, open ends) and both settings of `skip_firmware`: the receiver, the
+antenna and the eccentricity of the record are entries of the site information whose period contains the record's start;
+no record starts inside an interruption of a history. -/
+theorem sta_records_equipment_installed (sf : Bool) (rcv ant ecc : WriterSta.Hist) (r : WriterSta.Record)
+    (hr : r ∈ WriterSta.staRecords sf rcv ant ecc) :
+    (r.rcv ∈ rcv ∧ r.rcv.from_ ≤ r.from_ ∧ r.from_ < r.rcv.to_) ∧
+    (r.ant ∈ ant ∧ r.ant.from_ ≤ r.from_ ∧ r.from_ < r.ant.to_) ∧
+    (r.ecc ∈ ecc ∧ r.ecc.from_ ≤ r.from_ ∧ r.from_ < r.ecc.to_) :=
+  WriterSta.staRecords_sound sf rcv ant ecc r hr
+
+/-- **Every pair of consecutive equipment-change dates at whose start all three kinds of equipment are installed has its
+record**, starting and ending at these dates -/
+theorem sta_records_complete (sf : Bool) (rcv ant ecc : WriterSta.Hist) (p : Int × Int)
+    (hp : p ∈ WriterSta.pairwise (WriterSta.eventDates sf rcv ant ecc))
+    (h1 : ∃ e ∈ rcv, e.from_ ≤ p.1 ∧ p.1 < e.to_) (h2 : ∃ e ∈ ant, e.from_ ≤ p.1 ∧ p.1 < e.to_)
+    (h3 : ∃ e ∈ ecc, e.from_ ≤ p.1 ∧ p.1 < e.to_) :
+    ∃ r ∈ WriterSta.staRecords sf rcv ant ecc, r.from_ = p.1 ∧ r.to_ = p.2 :=
+  WriterSta.staRecords_complete sf rcv ant ecc p hp h1 h2 h3
+
+/-- **Every TYPE 002 record covers a non-empty interval** (the event dates are strictly ascending) -/
+theorem sta_records_nonempty_interval (sf : Bool) (rcv ant ecc : WriterSta.Hist) (r : WriterSta.Record)
+    (hr : r ∈ WriterSta.staRecords sf rcv ant ecc) : r.from_ < r.to_ :=
+  WriterSta.staRecords_from_lt_to sf rcv ant ecc r hr
+
+/-- the situation of seeded change C17/r3-2: no receiver between 100 and 200, the antenna changes at 150 — no record starts
+at 150, and the records before and after it name the receiver installed then -/
+theorem sta_gap_witness :
+    (WriterSta.staRecords false [⟨0, 100, 0⟩, ⟨200, 1000, 1⟩] [⟨0, 150, 0⟩, ⟨150, 1000, 0⟩] [⟨0, 1000, 0⟩]).map
+      (fun r => (r.from_, r.to_, r.rcv.cls)) = [(0, 150, 0), (200, 1000, 1)] := by
+  decide +kernel
+
 /-! ### the writers do not alter what they are given -/
 
 /-- **No writer assigns to, deletes from or calls a mutating method on an object reachable from its arguments or
@@ -391,6 +441,12 @@ end Midgard.Props.C17
 #print axioms Midgard.Props.C17.readback_is_rounding
 #print axioms Midgard.Props.C17.clu_layout_is
 #print axioms Midgard.Props.C17.clu_file_roundtrip
+#print axioms Midgard.Props.C17.sta_lookup_sound
+#print axioms Midgard.Props.C17.sta_lookup_complete
+#print axioms Midgard.Props.C17.sta_records_equipment_installed
+#print axioms Midgard.Props.C17.sta_records_complete
+#print axioms Midgard.Props.C17.sta_records_nonempty_interval
+#print axioms Midgard.Props.C17.sta_gap_witness
 #print axioms Midgard.Props.C17.writers_assign_nothing_on_inputs
 #print axioms Midgard.Props.C17.writer_effect_roots_cover
 #print axioms Midgard.Props.C17.blocks_balanced
